@@ -304,6 +304,41 @@ pub fn gadgets() -> Vec<Gadget> {
         let cond = c == 1;
         chk_el(&cs, alloc_el(&cs, x, m).and_then(|va| ElementVar::conditionally_select(&Boolean::new_witness(cs.clone(), || Ok(cond))?, &va, &alloc_el(&cs, y, AllocationMode::Witness)?)), Some(if cond { x } else { y }))
     });
+    gd!("conditionally_select (constant condition)", EEB, W, |env, a, b, c, m| {
+        let cs = new_cs(prove_mode());
+        let (x, y) = (env.els[a].1, env.els[b].1);
+        let cond = c == 1;
+        chk_el(&cs, alloc_el(&cs, x, m).and_then(|va| ElementVar::conditionally_select(&Boolean::constant(cond), &va, &alloc_el(&cs, y, AllocationMode::Witness)?)), Some(if cond { x } else { y }))
+    });
+    gd!("conditional_enforce_equal (constant condition)", EEB, W, |env, a, b, c, m| {
+        let cs = new_cs(prove_mode());
+        let (x, y) = (env.els[a].1, env.els[b].1);
+        let cond = c == 1;
+        chk_enforce(&cs, alloc_el(&cs, x, m).and_then(|va| va.conditional_enforce_equal(&alloc_el(&cs, y, AllocationMode::Witness)?, &Boolean::constant(cond))), !cond || x == y)
+    });
+    gd!("scalar_mul_le (constant bits)", ES, WC, |env, a, _, s, m| {
+        let cs = new_cs(prove_mode());
+        let e = env.els[a].1;
+        let k = &env.scalars[s].1;
+        let native = e * fr(&(k % &env.dc.r));
+        let r = alloc_el(&cs, e, m).and_then(|v| {
+            let bv: Vec<Boolean<Fq>> = (0..256).map(|i| Boolean::constant(k.bit(i))).collect();
+            v.scalar_mul_le(bv.iter())
+        });
+        chk_el(&cs, r, Some(native))
+    });
+    gd!("scalar_mul_le (input bits via UInt8)", ES, W, |env, a, _, s, m| {
+        let cs = new_cs(prove_mode());
+        let e = env.els[a].1;
+        let k = &env.scalars[s].1;
+        let native = e * fr(&(k % &env.dc.r));
+        let bytes = refmodel::fld::to32(k);
+        let r = alloc_el(&cs, e, m).and_then(|v| {
+            let wv = UInt8::new_input_vec(cs.clone(), &bytes)?;
+            v.scalar_mul_le(wv.to_bits_le()?.iter())
+        });
+        chk_el(&cs, r, Some(native))
+    });
     gd!("to_bits_le / to_bytes", E, W, |env, a, _, _, m| {
         let cs = new_cs(prove_mode());
         let e = env.els[a].1;
